@@ -38,6 +38,36 @@ type Header struct {
 	Kinds      []string  `json:"kinds"`
 	Acts       []string  `json:"acts"`
 	Precreated bool      `json:"precreated"`
+	Jobs       []JobDef  `json:"-"` // from the JHEADER line of spec/Jobs.tla configurations
+}
+
+// JobDef is one job definition of a Jobs.tla configuration.
+type JobDef struct {
+	ID    string   `json:"id"`
+	Src   []string `json:"src"`
+	Sink  string   `json:"sink"`
+	Batch int      `json:"batch"`
+	Lo    bool     `json:"lo"`
+	Xf    string   `json:"xf"`
+	Par   int      `json:"par"`
+}
+
+type JHeader struct {
+	Base Header   `json:"base"`
+	Jobs []JobDef `json:"jobs"`
+}
+
+// Fault is an injected pipeline fault (see spec/Jobs.tla).
+type Fault struct {
+	K string `json:"k"`
+	N int    `json:"n"`
+}
+
+// JobObs is the persisted state of one job.
+type JobObs struct {
+	Tok       []uint64 `json:"tok"`
+	State     string   `json:"state"`
+	Processed int      `json:"processed"`
 }
 
 func (h *Header) HasKind(k string) bool {
@@ -117,6 +147,15 @@ type Step struct {
 	Since uint64    `json:"since,omitempty"`
 	Page  *Page     `json:"page,omitempty"`
 	Obs   *Obs      `json:"obs,omitempty"` // backup steps: answers required of the restored hub
+
+	// job steps (spec/Jobs.tla)
+	J         int      `json:"j,omitempty"`
+	Type      string   `json:"type,omitempty"`
+	Fault     *Fault   `json:"fault,omitempty"`
+	Calls     [][]Elem `json:"calls,omitempty"`
+	Outcome   string   `json:"outcome,omitempty"`
+	Tok       []uint64 `json:"tok,omitempty"`
+	Processed int      `json:"processed,omitempty"`
 }
 
 type ChgObs struct {
@@ -208,8 +247,9 @@ func (o *Obs) CatMap() map[string]CatObs {
 
 // Behaviour is one emitted TLC state: the history that reached it and its Obs.
 type Behaviour struct {
-	Steps []Step `json:"steps"`
-	Obs   Obs    `json:"obs"`
+	Steps []Step   `json:"steps"`
+	Obs   Obs      `json:"obs"`
+	Jobs  []JobObs `json:"jobs,omitempty"`
 }
 
 // ParseTLCLine extracts the JSON payload of a `<<"TAG", "json">>` line printed by
@@ -257,7 +297,18 @@ func ReadTLC(path string, stride, offset int, fn func(idx int, b *Behaviour) err
 					}
 				}
 				idx++
-			} else if strings.HasPrefix(line, `<<"HEADER"`) {
+			} else if strings.HasPrefix(line, `<<"JHEADER"`) {
+				payload, ok := ParseTLCLine(line, "JHEADER")
+				if ok {
+					jh := &JHeader{}
+					if e := json.Unmarshal(payload, jh); e != nil {
+						return nil, idx, fmt.Errorf("JHEADER: %v", e)
+					}
+					h := jh.Base
+					h.Jobs = jh.Jobs
+					hdr = &h
+				}
+			} else if strings.HasPrefix(line, `<<"HEADER"`) && (hdr == nil || len(hdr.Jobs) == 0) {
 				payload, ok := ParseTLCLine(line, "HEADER")
 				if ok {
 					h := &Header{}
